@@ -544,19 +544,20 @@ LabelLess(a, b) ==
 CountIn(arr, c, ch, b, l) ==
   Cardinality({i \in 0..(BlockVox(c) - 1) :
                  VoxOfPos(c, b, i) >= 0 /\ Label(arr, c, ch * NVox(c) + VoxOfPos(c, b, i)) = l})
-CanonBlock(enc, arr, c, ch, b, off) ==
+CanonBlock(enc, arr, c, ch, b, off, up) ==
   LET S == BlockLabels(arr, c, ch, b)
       t == SetToSortSeq(S, LabelLess)
       best == CHOOSE j \in 1..Len(t) :
                  /\ \A k \in 1..Len(t) : CountIn(arr, c, ch, b, t[k]) <= CountIn(arr, c, ch, b, t[j])
                  /\ \A k \in 1..(j - 1) : CountIn(arr, c, ch, b, t[k]) < CountIn(arr, c, ch, b, t[j])
-  IN EncBlock(enc, arr, c, ch, b, off, t, TRUE, TRUE, WidthFor(Len(t), 0), best - 1)
-CanonEncode(arr, c) ==
+  IN EncBlock(enc, arr, c, ch, b, off, t, TRUE, TRUE, WidthFor(Len(t), up), best - 1)
+CanonEncodeUp(arr, c, up) ==
   LET perCh == 1 + NBlocks(c)
       step(enc, k) ==
         LET ch == (k - 1) \div perCh
             j == (k - 1) % perCh
         IN IF j = 0 THEN EncStartChannel(enc, c, ch)
-           ELSE CanonBlock(enc, arr, c, ch, j - 1, enc.h[2 * ch + 1] + 65536 * enc.h[2 * ch + 2])
+           ELSE CanonBlock(enc, arr, c, ch, j - 1, enc.h[2 * ch + 1] + 65536 * enc.h[2 * ch + 2], up)
   IN BufOf(FoldLeft(step, EncInit(c), [k \in 1..(c.C * perCh) |-> k]).h)
+CanonEncode(arr, c) == CanonEncodeUp(arr, c, 0)
 =============================================================================
